@@ -201,6 +201,8 @@ pub struct Cfg {
     pub max_dev: u32,
     /// Depth bound of this exploration.
     pub depth: usize,
+    /// Share of the pool limits the pending pool may use (chosen so that one transaction fits).
+    pub pending_pct: u16,
     /// Blocks with several transactions are in the alphabet. `process_block`
     /// walks a `HashSet` of the confirmed ids, so the recency order inside the
     /// spent-input cache after such a block depends on the process-random hash
@@ -380,7 +382,7 @@ impl PoolSubject {
             // large): two transactions resolved by the same event are re-submitted by the worker
             // in the iteration order of a `HashSet`, which is process-random and can matter near
             // the pool limits.
-            max_pending_pool_size_percentage: if self.cfg.max_txs == 3 { 34 } else { 25 },
+            max_pending_pool_size_percentage: self.cfg.pending_pct,
             metrics: false,
             ..Default::default()
         };
@@ -729,7 +731,7 @@ impl PoolSubject {
         Ok(())
     }
 
-    fn check_c17_state(&self, w: &World) -> Result<(), Violation> {
+    fn check_c17_state(&self, w: &World, before: &BTreeSet<usize>) -> Result<(), Violation> {
         let pooled = self.pooled(w);
         // ancestors with path counts
         for &x in &pooled {
@@ -795,8 +797,13 @@ impl PoolSubject {
                 let ok = w.chain.read(|d| d.contracts.contains(k))
                     || creators.iter().any(|p| pooled.contains(p) || w.m.in_flight.contains(p));
                 if !ok {
+                    // witness class: the creator that justified this user was itself pooled and left
+                    // the pool in this step without taking the user along (the user was admitted
+                    // before that creator, so the pool never linked them), as opposed to a
+                    // handed-out / preconfirmed creator that was skipped or rolled back
+                    let class = if creators.iter().any(|p| before.contains(p)) { ":unlinked-pool-creator-removed" } else { "" };
                     return Err(viol(
-                        "cascade:orphan-contract-dependent",
+                        format!("cascade:orphan-contract-dependent{class}"),
                         format!(
                             "{} is pooled and uses contract {k}, whose creators {:?} are neither pooled, handed out / preconfirmed, nor committed",
                             t.name,
@@ -1482,7 +1489,7 @@ impl Subject for PoolSubject {
         if let Err(v) = self.check_c16(w) {
             found.push((Prop::C16, v));
         }
-        if let Err(v) = self.check_c17_state(w) {
+        if let Err(v) = self.check_c17_state(w, &before) {
             found.push((Prop::C17, v));
         }
         let c21 = || -> Result<(), Violation> {
